@@ -7,7 +7,8 @@ From Coq Require Import ZArith List Bool Arith.
 From NQ Require Import Sdk.SdkAst Sdk.Target Sdk.Eval Sdk.MemMgr Sdk.Lower Sdk.Flatten Sdk.Writes
   Sdk.SdkCheck Sdk.Wf.
 From NQ Require Import Proofs.SdkRegProofs Proofs.SdkFrameProofs Proofs.SdkFlattenProofs Proofs.SdkLowerProofs
-  Proofs.SdkInvProofs Proofs.SdkSimProofs Proofs.SdkTopProofs.
+  Proofs.SdkInvProofs Proofs.SdkSimProofs Proofs.SdkTopProofs Proofs.SdkCodeOk.
+From NQ Require Proofs.Bridge_SdkAsm.
 Import ListNotations.
 Local Open Scope Z_scope.
 
@@ -209,6 +210,17 @@ Proof. exact block_step. Qed.
 Theorem C05_sdk_compile_correct : sdk_compile_correct.
 Proof. exact sdk_compile_correct_wfs. Qed.
 
+(* ---- the static side condition of the end-to-end chain (H1 of props/C05_end_to_end.v, first half):
+   every block emitted for a program of well-formed segments whose peak number of simultaneously
+   live qubit handles (Wf.qpeak) is at most `cap` satisfies Bridge_SdkAsm.code_ok cap: register
+   indices below 16, no opaque command, every qalloc directly preceded by the set of its operand
+   to an id below cap *)
+Theorem C05_lower_prog_code_ok : forall segs cap bs st,
+  Forall (fun seg => bwfs seg = true) segs -> qpeak segs <= cap ->
+  lower_prog true (prog_of segs) = Ok (bs, st) ->
+  forall b, In (Some b) bs -> Bridge_SdkAsm.code_ok cap (flatten b) = true.
+Proof. exact lower_prog_code_ok. Qed.
+
 (* ---- down to the commands that are sent, one block body *)
 Theorem C05_sdk_compile_correct_partial : forall b L st c st' e e' sg,
   bwfs b = true -> lower_block true b st = Ok (c, st') -> Inv st -> sub (l_len st') L ->
@@ -334,5 +346,6 @@ Print Assumptions C05_block_compile_correct.
 Print Assumptions C05_lower_array_init.
 Print Assumptions C05_block_step.
 Print Assumptions C05_sdk_compile_correct.
+Print Assumptions C05_lower_prog_code_ok.
 Print Assumptions C05_sdk_compile_correct_partial.
 Print Assumptions C05_unrestricted_refuted.
